@@ -97,7 +97,8 @@ func parseUint(val string, bits int) (uint64, error) {
 // checkTextDateTime rejects an instant that the XML and JSON writers cannot write
 // back: they use RFC 3339, which only has four-digit years.
 func checkTextDateTime(t time.Time) error {
-	if y := t.Year(); y < 0 || y > 9999 {
+	// The writers use UTC, whatever location the value carries
+	if y := t.UTC().Year(); y < 0 || y > 9999 {
 		return Errorf("date-time is out of range")
 	}
 	return nil
